@@ -22,7 +22,7 @@ ASSUME = ["`lorem` is not used (its randomness is the only documented impurity)"
 
 ABBRS_M = ['doc', 'ul>li*2', 'ul>li*', 'p{$#}*', 'a', 'a[href=x]{t}', 'div.b_m>.-e', 'ul.nav>.-item*2>._active', 'div.b>div.-e>div.-e', 'bad', 'bad2>p', 'x1+bad', 'a[', 'p{', '(a',
            'foo', 'foo.a.b', 'p{${v}}', 'vare>p', 'tm', '!', 'table>.r>.c', 'ul>li.i$*3', 'a:link', 'select>.o', 'ul>li*5', 'x1*4>x2*2', '', '()', '()*3', '(())']
-ABBRS_C = ['m10', 'p10-20', 'm', 'p', 'bd', 'c#fc0', 'fz1.5', 'lh2', 'z10', 'm10+p', 'bad', 'xx', 'm-a', 'pos:a', 'trf:rx', 'w100p', 'mah', 'p!', '(', 'm10-', 'trf-s(2, 3)', 'trf-s(1)', 'trf-s', 'trf:r(45deg)', 'trf:r']
+ABBRS_C = ['zq', 'zr', '@kf', 'm10', 'p10-20', 'm', 'p', 'bd', 'c#fc0', 'fz1.5', 'lh2', 'z10', 'm10+p', 'bad', 'xx', 'm-a', 'pos:a', 'trf:rx', 'w100p', 'mah', 'p!', '(', 'm10-', 'trf-s(2, 3)', 'trf-s(1)', 'trf-s', 'trf:r(45deg)', 'trf:r']
 
 CFG_M = [
     {},
@@ -53,6 +53,18 @@ CFG_C = [
     {'type': 'stylesheet', 'syntax': 'sass', 'options': {'stylesheet.unitAliases': {'p': 'pc'}}},
     {'type': 'stylesheet', 'snippets': {'m': 'max-width:3', 'p': 'pad-x:7'}, 'options': {'stylesheet.intUnit': 'pt'}},
     {'type': 'stylesheet', 'snippets': {'m': 'max-width:3', 'p': 'pad-x:7'}, 'options': {'stylesheet.floatUnit': 'ex'}},
+]
+
+_TAB_A = {'zq': 'zoom-quality:high|low', 'zr': '@zr-rule ${1} {}'}
+_TAB_B = {'zq': '@zq-rule ${1} {}', 'zr': 'zoom-range:1|2'}
+CFG_S = [
+    {'type': 'stylesheet', 'context': {'name': '@@section'}, 'snippets': _TAB_A},
+    {'type': 'stylesheet', 'context': {'name': '@@section'}, 'snippets': _TAB_B},
+    {'type': 'stylesheet', 'context': {'name': '@@property'}, 'snippets': _TAB_A},
+    {'type': 'stylesheet', 'context': {'name': '@@property'}, 'snippets': _TAB_B},
+    {'type': 'stylesheet', 'context': {'name': '@@section'}},
+    {'type': 'stylesheet', 'context': {'name': '@@property'}},
+    {'type': 'stylesheet', 'snippets': _TAB_A},
 ]
 
 _fresh = {}
@@ -240,15 +252,16 @@ def step_strategy(ncfg_m, ncfg_c, ncaches):
     def mk(is_css, ai, ci, via, cache):
         if is_css:
             return {'abbr': ABBRS_C[ai % len(ABBRS_C)], 'cfg': ncfg_m + (ci % ncfg_c), 'via': via, 'cache': (cache % ncaches) if (ncaches and cache is not None) else None}
-        return {'abbr': ABBRS_M[ai % len(ABBRS_M)], 'cfg': ci % ncfg_m, 'via': via, 'cache': None}
+        # markup calls go through the shared caches as well (a cache is part of any caller's config, whatever the type)
+        return {'abbr': ABBRS_M[ai % len(ABBRS_M)], 'cfg': ci % ncfg_m, 'via': via, 'cache': (cache % ncaches) if (ncaches and cache is not None) else None}
     return st.builds(mk, st.booleans(), st.integers(0, 40), st.integers(0, 12), st.sampled_from(['dict', 'dict', 'Config']), st.one_of(st.none(), st.integers(0, 3)))
 
 
 @st.composite
 def history(draw):
     ms = draw(st.lists(st.sampled_from(range(len(CFG_M))), min_size=1, max_size=4, unique=True))
-    cs = draw(st.lists(st.sampled_from(range(len(CFG_C))), min_size=1, max_size=3, unique=True))
-    cfgs = [CFG_M[i] for i in ms] + [CFG_C[i] for i in cs]
+    cs = draw(st.lists(st.sampled_from(range(len(CFG_C) + len(CFG_S))), min_size=1, max_size=3, unique=True))
+    cfgs = [CFG_M[i] for i in ms] + [(CFG_C + CFG_S)[i] for i in cs]
     ncaches = draw(st.integers(0, 2))
     mut = st.builds(lambda ci, kv: {'op': 'mutate', 'cfg': ci % len(ms), 'key': kv[0], 'value': kv[1]}, st.integers(0, 8),
                     st.sampled_from([('output.format', False), ('output.format', True), ('output.tagCase', 'upper'), ('text', 'changed'), ('text', ['x', 'y']), ('output.selfClosingStyle', 'xhtml')]))
@@ -292,6 +305,26 @@ def pair_cases():
             if a1 != a2:
                 yield {'cfgs': [CFG_C[0]], 'ncaches': 1, 'steps': [{'abbr': a1, 'cfg': 0, 'via': 'dict', 'cache': 0}, {'abbr': a2, 'cfg': 0, 'via': 'dict', 'cache': 0},
                                                                    {'abbr': a1, 'cfg': 0, 'via': 'dict', 'cache': 0}]}
+
+
+    # the same variable-dependent snippet bodies through ONE cache shared by markup configs whose variables / snippets / maxRepeat differ
+    # (added after seeded change C08-10: parsed snippet trees memoised in the cache under the snippet source only)
+    fam_mc = [(a, c) for a in ('!', 'doc', 'foo', 'foo.a.b', 'ul>li*5', 'a') for c in (0, 5, 6, 9, 12, 14, 15)]
+    for (a1, c1) in fam_mc:
+        for (a2, c2) in fam_mc:
+            if c1 == c2:
+                continue
+            yield {'cfgs': [CFG_M[c1], CFG_M[c2]], 'ncaches': 1, 'steps': [{'abbr': a1, 'cfg': 0, 'via': 'dict', 'cache': 0}, {'abbr': a2, 'cfg': 1, 'via': 'dict', 'cache': 0},
+                                                                         {'abbr': a1, 'cfg': 0, 'via': 'dict', 'cache': 0}]}
+    # scoped stylesheet calls (`@@section` keeps raw snippets, `@@property` keeps property snippets) through one cache shared by configs whose
+    # snippet tables define the same keys differently (added after seeded change C08-9: per-scope subsets kept in the cache were never dropped)
+    fam_s = [(a, c) for a in ('zq', 'zr', 'm', '@kf') for c in range(len(CFG_S))]
+    for (a1, c1) in fam_s:
+        for (a2, c2) in fam_s:
+            if c1 == c2:
+                continue
+            yield {'cfgs': [CFG_S[c1], CFG_S[c2]], 'ncaches': 1, 'steps': [{'abbr': a1, 'cfg': 0, 'via': 'dict', 'cache': 0}, {'abbr': a2, 'cfg': 1, 'via': 'dict', 'cache': 0},
+                                                                         {'abbr': a1, 'cfg': 0, 'via': 'dict', 'cache': 0}]}
 
 
 def shard_pairs(ctx, shard, nshards):
